@@ -5,6 +5,7 @@ import MTfitVerif.Model.Polarity
 import MTfitVerif.Model.RatioPdf
 import MTfitVerif.Model.Forward
 import MTfitVerif.Model.SampleStore
+import MTfitVerif.Model.Scatangle
 /- dispatch table of the executable model -/
 namespace MTfitVerif.Driver
 open MTfitVerif Proto
@@ -213,7 +214,27 @@ def opIterStop : P String := do
   let m ← nat; let nb ← nat; let bs ← many nb nat; done
   pure (toString (SampleStore.runIteration m 0 bs))
 
+/-- `scat nlines (0 | 1 w | 2 | 3 name az toa)×nlines binSize nidx idx…`
+    → `nrec (nst w (name az toa)×nst)×nrec` -/
+def opScat : P String := do
+  let nl ← nat
+  let lines ← many nl (do
+    let k ← nat
+    match k with
+    | 0 => pure (Scatangle.Line.blank : Scatangle.Line Float)
+    | 1 => do let w ← flt; pure (Scatangle.Line.weight w)
+    | 2 => pure Scatangle.Line.badWeight
+    | _ => do let n ← nat; let a ← flt; let t ← flt; pure (Scatangle.Line.station n a t))
+  let b ← flt
+  let ni ← nat; let idx ← many ni nat; done
+  let recs := Scatangle.parse lines
+  let recs := if ni > 0 then Scatangle.subsample recs idx else recs
+  let recs := Scatangle.bin b recs
+  pure (s!"{recs.length} " ++ " ".intercalate (recs.map fun p =>
+    s!"{p.1.length} " ++ outF p.2 ++ (String.join (p.1.map fun st => s!" {st.1} " ++ outFs [st.2.1, st.2.2]))))
+
 def table : List (String × P String) := [
+  ("scat", opScat),
   ("sample", opSample),
   ("iterstop", opIterStop),
   ("stationangles", opStationAngles),
